@@ -1,6 +1,6 @@
 #!/venv/bin/python
 """tools/refactor_fuzz.py <transform> <outdir> [srcroot]: write a behaviour-preserving rewrite of <srcroot>/accelforge (default /repo) to <outdir>.
-transforms: commute_mult, invert_if, expand_aug, flip_compare, all, rename_locals, add_logging, add_pass
+transforms: commute_mult, invert_if, expand_aug, flip_compare, all, rename_locals, add_logging, add_pass, swap_independent
 Used to measure false alarms / brittleness of the checks (no check may report a VIOLATION on these copies)."""
 import ast, os, shutil, sys
 
@@ -116,7 +116,31 @@ class AddPass(ast.NodeTransformer):
                 setattr(n, fld, out)
         return n
 
-T = {"add_pass": [AddPass], "rename_locals": [RenameLocals], "add_logging": [AddLogging], "commute_mult": [CommuteMult], "invert_if": [InvertIf], "expand_aug": [ExpandAug], "flip_compare": [FlipCompare], "all": [CommuteMult, InvertIf, ExpandAug, FlipCompare]}
+
+class SwapIndependent(ast.NodeTransformer):
+    """Swap adjacent simple assignments `a = e1; b = e2` whose names are disjoint and whose values contain no call."""
+    @staticmethod
+    def _simple(s):
+        return isinstance(s, ast.Assign) and len(s.targets) == 1 and isinstance(s.targets[0], ast.Name) and not any(isinstance(x, (ast.Call, ast.Await, ast.Yield, ast.NamedExpr, ast.Subscript, ast.Attribute)) for x in ast.walk(s.value))
+    def generic_visit(self, n):
+        super().generic_visit(n)
+        for fld in ("body", "orelse", "finalbody"):
+            b = getattr(n, fld, None)
+            if isinstance(b, list) and len(b) > 1 and isinstance(b[0], ast.stmt) and not isinstance(n, (ast.ClassDef, ast.Module)):
+                i = 0
+                while i + 1 < len(b):
+                    x, y = b[i], b[i + 1]
+                    if self._simple(x) and self._simple(y):
+                        nx = {m.id for m in ast.walk(x) if isinstance(m, ast.Name)}
+                        ny = {m.id for m in ast.walk(y) if isinstance(m, ast.Name)}
+                        if not (nx & ny):
+                            b[i], b[i + 1] = y, x
+                            i += 2
+                            continue
+                    i += 1
+        return n
+
+T = {"swap_independent": [SwapIndependent], "add_pass": [AddPass], "rename_locals": [RenameLocals], "add_logging": [AddLogging], "commute_mult": [CommuteMult], "invert_if": [InvertIf], "expand_aug": [ExpandAug], "flip_compare": [FlipCompare], "all": [CommuteMult, InvertIf, ExpandAug, FlipCompare]}
 name, out = sys.argv[1], sys.argv[2]
 src_root = sys.argv[3] if len(sys.argv) > 3 else "/repo"
 if os.path.exists(out):
